@@ -77,7 +77,16 @@ func pattern(label string, n int) []byte { return alpha.Bytes("c19-"+label, n) }
 
 // run executes the sequence on fresh objects, comparing every output with the reference.
 func run(x *vf.Ctx, f factory, seed []byte, seq []opk, pk string) {
-	objs := []kyber.XOF{f.mk(append([]byte{}, seed...))}
+	// every buffer handed to the XOF (seed, absorbed data, XORKeyStream source) is overwritten right after the call:
+	// the XOF must not keep a reference to its caller's memory
+	scribble := func(b []byte) {
+		for i := range b {
+			b[i] ^= 0xa5
+		}
+	}
+	sb := append([]byte{}, seed...)
+	objs := []kyber.XOF{f.mk(sb)}
+	scribble(sb)
 	sts := []stage{{seed: seed, factory: true, origSeed: seed}}
 	desc := ""
 	for si, o := range seq {
@@ -86,7 +95,9 @@ func run(x *vf.Ctx, f factory, seed []byte, seq []opk, pk string) {
 		switch o.kind {
 		case "Write":
 			data := pattern(fmt.Sprintf("w%d-%d", si, o.n), o.n)
-			n, err := X.Write(append([]byte{}, data...))
+			wb := append([]byte{}, data...)
+			n, err := X.Write(wb)
+			scribble(wb)
 			if err != nil || n != o.n {
 				x.Failf(pk+"/Write", "%s seed=%d: %s: Write returned %d, %v", f.name, len(seed), desc, n, err)
 				return
@@ -113,7 +124,13 @@ func run(x *vf.Ctx, f factory, seed []byte, seq []opk, pk string) {
 			for i := range dst {
 				dst[i] = 0xEE
 			}
-			X.XORKeyStream(dst[:o.n], append([]byte{}, src...))
+			xs := append([]byte{}, src...)
+			X.XORKeyStream(dst[:o.n], xs)
+			if !bytes.Equal(xs, src) {
+				x.Failf(pk+"/XORKeyStream-clobbers-src", "%s: %s: XORKeyStream changed its source buffer", f.name, desc)
+				return
+			}
+			scribble(xs)
 			for i := 0; i < o.n; i++ {
 				if dst[i] != src[i]^want[i] {
 					x.Failf(pk+"/XORKeyStream", "%s seed=%d: %s: byte %d is not src XOR the bytes Read would return", f.name, len(seed), desc, i)
